@@ -266,8 +266,17 @@ class State:
         for d in self.neq:
             if d.key() in (k, nk):
                 return
-        if len(self.neq) < 12:
-            self.neq.append(r)
+        # facts of the same linear shape that differ only in the constant are the trail a counter leaves behind when
+        # it is incremented under a disequality (x != c, x+1 != c, ...): the two most recent are kept
+        shape = tuple(sorted(r.t.items()))
+        nshape = tuple(sorted((-r).t.items()))
+        same = [d for d in self.neq if tuple(sorted(d.t.items())) in (shape, nshape)]
+        if len(same) >= 2:
+            self.neq.remove(same[0])
+        if len(self.neq) >= 12:
+            # bounded list: the oldest fact gives way (recent branch conditions matter most)
+            self.neq.pop(0)
+        self.neq.append(r)
 
     def entails_neq(self, e):
         r = self.reduce(e)
@@ -390,6 +399,30 @@ class State:
                         seen.add(k)
                         rest.append(c)
             cur = rest
+        return False
+
+    def entails_ineq_fm(self, e):
+        """e >= 0 by refutation: the state together with e <= -1 is contradictory (integers)"""
+        if self.entails_ineq(e):
+            return True
+        s2 = self.copy()
+        s2.add_ineq(-e - Lin.const(1))
+        return s2.bottom or s2.infeasible(cap=300)
+
+    def dead(self):
+        """a stronger emptiness test, used before a state is recorded: Fourier-Motzkin with a larger budget; a
+        disequality whose difference is forced to zero by two opposite inequalities; implied equalities that
+        contradict an excluded value"""
+        if self.bottom or self.infeasible(cap=300):
+            return True
+        for d in self.neq:
+            r = self.reduce(d)
+            if not r.t:
+                if r.c == 0:
+                    return True
+                continue
+            if self.entails_ineq_fm(r) and self.entails_ineq_fm(-r):
+                return True
         return False
 
     def lower_bound(self, e):
